@@ -107,7 +107,7 @@ def opNames : Op → List Name
 def mdFree (o : Op) : Bool := !(opNames o).contains .md
 
 def okItem : Item → Bool
-  | .submit _ ops => ops.all tempOp && ops.all mdFree
+  | .submit _ ops => ops.all tempOp
   | x => rank x ≤ 25
 
 /-- rank of the head item; 26 when the program is exhausted -/
@@ -240,27 +240,30 @@ theorem tempOp_forkOps (i : Nat) (c : Chunk) : ∀ o ∈ forkOps i c, tempOp o =
       rcases ho with rfl | rfl | rfl <;> rfl
     · simp at ho
 
-theorem ok_chunkItems {v : Variant} (hv : v ≠ .forked) {r : Bool} {i : Nat} {c : Chunk} :
+theorem ok_chunkItems {v : Variant} {r : Bool} {i : Nat} {c : Chunk} :
     ∀ x ∈ chunkItems v r i c, okItem x = true := by
   intro x hx
   have hr := rank_chunkItems x hx
   cases x with
   | submit j ops =>
-    simp only [okItem, Bool.and_eq_true, List.all_eq_true]
+    simp only [okItem, List.all_eq_true]
     cases v with
-    | forked => exact absurd rfl hv
+    | forked =>
+      simp only [chunkItems, List.mem_singleton] at hx
+      injection hx with _ hx; subst hx
+      exact tempOp_forkOps _ _
     | serial =>
       simp only [chunkItems, flushItems] at hx
       split at hx <;> simp at hx
       obtain ⟨_, rfl⟩ := hx
-      exact ⟨tempOp_writeOps _ _, mdFree_writeOps _ _⟩
+      exact tempOp_writeOps _ _
     | executor =>
       simp only [chunkItems, flushItems] at hx
       split at hx <;> split at hx <;> simp at hx
-      all_goals (obtain ⟨_, rfl⟩ := hx; exact ⟨tempOp_writeOps _ _, mdFree_writeOps _ _⟩)
+      all_goals (obtain ⟨_, rfl⟩ := hx; exact tempOp_writeOps _ _)
   | _ => simp_all [okItem]
 
-theorem ok_chunksItems {v : Variant} (hv : v ≠ .forked) {r : Bool} :
+theorem ok_chunksItems {v : Variant} {r : Bool} :
     ∀ (cs : List Chunk) (i : Nat), ∀ x ∈ chunksItems v r i cs, okItem x = true := by
   intro cs
   induction cs with
@@ -269,7 +272,7 @@ theorem ok_chunksItems {v : Variant} (hv : v ≠ .forked) {r : Bool} :
     intro i x hx
     simp only [chunksItems, List.mem_append] at hx
     rcases hx with hx | hx
-    · exact ok_chunkItems hv x hx
+    · exact ok_chunkItems x hx
     · exact ih _ x hx
 
 /-- the three shape properties together -/
@@ -317,12 +320,12 @@ theorem shape_mid_close {mid : List Item} (hr16 : ∀ x ∈ mid, rank x = 16) (h
       | (simp [rank] at hle; omega)
       | (apply List.mem_append_right; simp [closeItems, flushItems])
 
-theorem shape_handlerItems (h : HandlerSpec) (hv : h.variant ≠ .forked) : Shape (handlerItems h) :=
-  shape_mid_close (rank_chunksItems _ _) (ok_chunksItems hv _ _)
+theorem shape_handlerItems (h : HandlerSpec) : Shape (handlerItems h) :=
+  shape_mid_close (rank_chunksItems _ _) (ok_chunksItems _ _)
 
 /-- chunk phase of the main program -/
 def mainItems (v : Variant) (cs : List Chunk) : List Item :=
-  chunksItems v true 0 cs ++ (if v == .executor then [.waitAll] else [])
+  chunksItems v true 0 cs ++ (if v == .executor || v == .forked then [.waitAll] else [])
 
 theorem rank_mainItems {v : Variant} {cs : List Chunk} : ∀ x ∈ mainItems v cs, rank x = 16 := by
   intro x hx
@@ -332,25 +335,22 @@ theorem rank_mainItems {v : Variant} {cs : List Chunk} : ∀ x ∈ mainItems v c
   · split at hx <;> simp at hx
     subst hx; rfl
 
-theorem ok_mainItems {v : Variant} (hv : v ≠ .forked) {cs : List Chunk} : ∀ x ∈ mainItems v cs, okItem x = true := by
+theorem ok_mainItems {v : Variant} {cs : List Chunk} : ∀ x ∈ mainItems v cs, okItem x = true := by
   intro x hx
   have hr := rank_mainItems x hx
   simp only [mainItems, List.mem_append] at hx
   rcases hx with hx | hx
-  · exact ok_chunksItems hv _ _ x hx
+  · exact ok_chunksItems _ _ x hx
   · split at hx <;> simp at hx
     subst hx; rfl
 
-theorem saverProg_eq (v : Variant) (hv : v ≠ .forked) (cs : List Chunk) :
+theorem saverProg_eq (v : Variant) (cs : List Chunk) :
     saverProg v {} cs = initItems ++ (mainItems v cs ++ closeItems) := by
-  cases v with
-  | forked => exact absurd rfl hv
-  | serial => simp [saverProg, mainItems, List.append_assoc]
-  | executor => simp [saverProg, mainItems, List.append_assoc]
+  cases v <;> simp [saverProg, mainItems, List.append_assoc]
 
-theorem shape_saverProg (v : Variant) (hv : v ≠ .forked) (cs : List Chunk) : Shape (saverProg v {} cs) := by
-  rw [saverProg_eq v hv]
-  have hmc := shape_mid_close (mid := mainItems v cs) rank_mainItems (ok_mainItems hv)
+theorem shape_saverProg (v : Variant) (cs : List Chunk) : Shape (saverProg v {} cs) := by
+  rw [saverProg_eq v]
+  have hmc := shape_mid_close (mid := mainItems v cs) rank_mainItems ok_mainItems
   have hin : ∀ x ∈ initItems, rank x ≤ 15 ∧ okItem x = true := by
     intro x hx
     simp only [initItems, flushItems, List.cons_append, List.nil_append, List.mem_cons, List.mem_nil_iff, or_false] at hx
